@@ -55,6 +55,14 @@ func replay(args []string) {
 			} else {
 				r.c06MatCase(&c)
 			}
+		case "gmat":
+			var c GMatCase
+			if e := json.Unmarshal(line, &c); e != nil {
+				return fmt.Errorf("bad gmat case: %v: %.200s", e, line)
+			}
+			if prop == "c04" {
+				r.c04Graded(&c)
+			}
 		case "dmat":
 			var c DMatCase
 			if e := json.Unmarshal(line, &c); e != nil {
